@@ -12,7 +12,9 @@ from typing import Any, Callable
 from engine import symx
 
 VERIF = os.path.dirname(os.path.dirname(os.path.abspath(__file__)))
-REPO = "/repo"
+# development aid: mutant runs write their evidence and replay files elsewhere
+OUT = os.environ.get("VERIF_OUT", VERIF)
+REPO = os.environ.get("VERIF_REPO", "/repo")
 EXIT_OK, EXIT_VIOLATION, EXIT_INCONCLUSIVE = 0, 1, 3
 
 
@@ -141,7 +143,7 @@ class Context:
                 self.known_hits.append(fingerprint)
                 print(f"KNOWN-FINDING: property={self.pid} {k['what']}")
                 return
-        rdir = os.path.join(VERIF, "replays", self.pid)
+        rdir = os.path.join(OUT, "replays", self.pid)
         os.makedirs(rdir, exist_ok=True)
         h = hashlib.sha1(fingerprint.encode()).hexdigest()[:12]
         path = os.path.join(rdir, f"{h}.json")
@@ -191,8 +193,8 @@ class Context:
             "wall_s": round(wall, 2),
             "violations": len(self.violations),
         }
-        os.makedirs(os.path.join(VERIF, "evidence"), exist_ok=True)
-        with open(os.path.join(VERIF, "evidence", f"{self.pid}.json"), "w") as f:
+        os.makedirs(os.path.join(OUT, "evidence"), exist_ok=True)
+        with open(os.path.join(OUT, "evidence", f"{self.pid}.json"), "w") as f:
             json.dump(ev, f, indent=1, default=str)
         tag = "exhaustive" if cov["exhaustive"] else "NOT exhaustive"
         print(
